@@ -164,6 +164,8 @@ func genOp(p Profile, ntables int) *rapid.Generator[Op] {
 			o.N = rapid.IntRange(0, 3).Draw(t, "name")
 		case opMarkDone:
 			o.H = rapid.IntRange(0, 5).Draw(t, "h")
+		case opInitWatch:
+			o.H = rapid.IntRange(0, 5).Draw(t, "h")
 		}
 		return o
 	})
